@@ -151,7 +151,11 @@ func invokeParamNames(c *ssa.CallCommon) []string {
 	sig := c.Signature()
 	names := []string{"recv"}
 	for i := 0; i < sig.Params().Len(); i++ {
-		names = append(names, sig.Params().At(i).Name())
+		nm := sig.Params().At(i).Name()
+		if nm == "" || nm == "_" {
+			nm = fmt.Sprintf("arg%d", i)
+		}
+		names = append(names, nm)
 	}
 	return names
 }
